@@ -220,6 +220,7 @@ func AtomUnits() []*Unit {
 			m.F("size", 1, Int32, Optional).F("other", 2, String, Optional)
 			u := b.Unit()
 			u.SpecialNames = []string{"Size"}
+			u.NoGV2 = true
 			us = append(us, u)
 		}
 		{
@@ -228,6 +229,7 @@ func AtomUnits() []*Unit {
 			m.F("marshal", 1, Int32, Optional).F("unmarshal", 2, String, Optional).F("marshal_to", 3, Int64, Optional)
 			u := b.Unit()
 			u.SpecialNames = []string{"Marshal", "Unmarshal", "MarshalTo"}
+			u.NoGV2 = true
 			us = append(us, u)
 		}
 		// ---- messages whose short names are equal (filepermessage output names)
